@@ -232,6 +232,42 @@ func runE5Row(p *Program, sp *Spec, c *Collector, r *E5Row) bool {
 			got = symFieldOf(got, r.Field)
 		}
 		return e5Compare(c, r, key, pos, got, want, "", r.What)
+	case "depends":
+		// a key function: its result must change whenever one of the identifying fields of its argument changes
+		got := sf.returnSym()
+		if has, w := got.hasUnknown(); has {
+			c.Ob(r.Props, "E5.key-identity", e5Key(r, ""), Undecided, r.What+": the key leaves the supported fragment ("+w+")", pos, false)
+			return true
+		}
+		got = canonBinders(stripAsserts(got))
+		for _, fld := range sortedKeys(r.Fields) {
+			key := e5Key(r, "depends on "+fld)
+			term := "p0." + fld
+			ev := &evaluator{e: env{}, missing: map[string]string{}, kinds: map[string]string{}}
+			ev.eval(got, "string")
+			if _, ok := ev.missing[term]; !ok {
+				c.Ob(r.Props, "E5.key-identity", key, Violated, fmt.Sprintf("%s: the key does not depend on %s at all, so two records that differ only there share one entry; key term: %s", r.What, fld, clip(got.String(), 200)), pos, false)
+				continue
+			}
+			changed := false
+			for _, pair := range [][2]val{{{k: 'i', i: 1}, {k: 'i', i: 2}}, {{k: 's', s: "a"}, {k: 's', s: "b"}}} {
+				if (ev.missing[term] == "string") != (pair[0].k == 's') {
+					continue
+				}
+				e1, e2 := env{term: pair[0]}, env{term: pair[1]}
+				v1 := (&evaluator{e: e1, missing: map[string]string{}, kinds: map[string]string{}}).eval(got, "string")
+				v2 := (&evaluator{e: e2, missing: map[string]string{}, kinds: map[string]string{}}).eval(got, "string")
+				if v1.String() != v2.String() {
+					changed = true
+				}
+			}
+			if changed {
+				c.Ob(r.Props, "E5.key-identity", key, Discharged, r.What+": the key changes with "+fld, pos, true)
+			} else {
+				c.Ob(r.Props, "E5.key-identity", key, Violated, fmt.Sprintf("%s: changing %s does not change the key; key term: %s", r.What, fld, clip(got.String(), 200)), pos, false)
+			}
+		}
+		return true
 	case "emits":
 		var spec2code map[string]*Sym
 		tagDesc := tagString(r.Tag)
